@@ -57,6 +57,12 @@ add("C11", "model_checking",
     "Trusted: the frontier formulas in mc/checks/c11.py and ref_risk in mc/worlds/aave.py. Frontiers worth < 1e-9 USD are treated as 'no room'. Helpers are judged for accounts with collateral only, as the property says.",
     "DESIGN.md §5 C11")
 
+add("C12", "model_checking",
+    "exhaustive product portfolio x shock x target health factor (price multiplier solved exactly) x in-bar user activity, liquidation run by the real Market.update(), every _do_liquidate step bracketed by raw-state snapshots and judged against the step rule in exact Fractions",
+    "6 collateral sets (1-3 tokens, distinct LT/bonus/indices) x 6 debt sets (1-2 tokens incl. a volatile debt) x non-collateral extra x {collateral-down, debt-up} x 9 target health factors (1.3, 1+-1e-9, 0.97, 0.95+, 0.949, 0.6, 0.2, 0.03) x user activity in the shocked bar, plus a following bar. Judged per step: liquidation iff HF < 1, repaid <= close factor x debt, seized value = repaid value x (1 + collateral bonus) at the collateral's own index, net value falls by exactly bonus x repaid value, only the two positions move, wallet untouched, nothing negative, LiquidationAction fields = state deltas, no debt visited twice, loop ends with HF >= 1 / no collateral / all debts visited, update() never raises.",
+    "Trusted: ref_positions / ref_risk in mc/worlds/aave.py. Pair selection order is not judged; HF within 1e-12 of 0.95 is not judged for the close factor; zero-collateral-value accounts are expected not to be liquidated.",
+    "DESIGN.md §5 C12")
+
 _PENDING = "check not built yet in this round (planned: bounded exhaustive exploration, see DESIGN.md §5); listed here until its check is registered"
 for _i in range(1, 21):
     _p = f"C{_i:02d}"
